@@ -700,6 +700,16 @@ class C04(Spec):
         return [p for p in out if all(c[0] < len(p["feed"]["dates"]) - 1 for c in p.get("cuts", []))]
 
 
+def _residue_zero_base(msg):
+    import re
+
+    m = re.search(r"Currentvalue is (\S+?)\.? Therefore", msg)
+    try:
+        return m is not None and abs(float(m.group(1))) < 1e-6
+    except ValueError:
+        return False
+
+
 def _nondeterministic(stack):
     return any(a.get("a") in ("SelectRandomly", "WeighRandomly") for a in stack)
 
@@ -863,6 +873,10 @@ class C09(Spec):
             # the parent went bankrupt and was liquidated inside the date's algo run, the child's stack then traded on the liquidated
             # tree and the child sits on a zero base (C16's KF-C16-liquidation-inside-the-algo-run-does-not-stop-it): not about C09
             viol.append({"check": "bankrupt_traded_after", "detail": "parent bankrupt, then %s" % str(nexc)[:100], "flags": {"liquidated_mid_run": True}})
+        elif isinstance(nexc, ZeroDivisionError) and _residue_zero_base(str(nexc)):
+            # everything was withdrawn from a node and what is left of its value is float residue (1e-14) on an exactly zero
+            # base: the zero-base refusal is legitimate there ('either' regime of the ledger oracle), and not about the index
+            info["zero_base_on_float_residue"] = 1
         elif isinstance(nexc, ZeroDivisionError) and "Could not update parent " in str(nexc):
             # the parent itself sits on a zero base (drained by flows): legitimate, and not about the child
             info["parent_zero_base"] = 1
